@@ -94,13 +94,10 @@ impl TimeWindow {
 
         self.events.push_back(event);
 
-        while self
-            .events
-            .front()
-            .is_some_and(|e| e.metadata.timestamp < self.start_time)
-        {
-            self.events.pop_front();
-        }
+        // Events can arrive out of timestamp order, so an event that is too old may sit
+        // behind a younger one: check every retained event, not only the front.
+        let start_time = self.start_time;
+        self.events.retain(|e| e.metadata.timestamp >= start_time);
         while self.events.len() > self.max_events {
             self.events.pop_front();
         }
